@@ -38,6 +38,7 @@ pub fn cfg() -> Cfg {
         MatcherKind::FuncDebug,
         MatcherKind::FuncDebug,
         MatcherKind::Func,
+        MatcherKind::Macro(0),
     ];
     cfg.max_clauses = 8;
     cfg.max_stub_pats = 2;
@@ -178,7 +179,7 @@ pub fn run(ctx: &Ctx) -> Verdict {
     let mut v = Verdict::new("exploration", RULE);
     v.explanation = "Model = one global slot sequence; the returned tag identifies the slot's pattern and segment. A deviating call must panic (and verification must then report it), calls to unordered methods must not move the sequence, complete sequences verify silently and short ones name the unconsumed patterns.".into();
     v.assumptions = vec![
-        "DynClause hook assembles the clause list".into(),
+        "each clause is wrapped in the DynClause hook (its builder type is only known at run time); the clause list itself is a production tuple of that arity".into(),
         "behaviour of ordered calls after the first deviation is not compared (not defined by the property)".into(),
     ];
     v.subs.push(super::replay_corpus(ctx));
